@@ -3,10 +3,16 @@
 package message
 
 import (
+	"github.com/inbucket/inbucket/v3/pkg/extension"
+	"github.com/inbucket/inbucket/v3/pkg/extension/event"
 	"github.com/inbucket/inbucket/v3/pkg/policy"
+	"github.com/inbucket/inbucket/v3/pkg/storage"
 )
 
 var _ policy.Recipient
+var _ storage.Store
+var _ extension.Host
+var _ event.InboundMessage
 
 // Ghost call log of a Manager: how many deliveries were requested through it and the arguments of
 // the most recent one.  Changed only by the interface contract of Deliver.
@@ -27,3 +33,119 @@ func Ghost_dlvContent(m Manager) []byte            { return ghost_dlvContent(m) 
 //@   modifies ghost_ndeliver(self), ghost_dlvFrom(self), ghost_dlvRcpts(self), ghost_dlvContent(self)
 //@   ensures ghost_ndeliver(self) == old(ghost_ndeliver(self)) + 1
 //@   ensures ghost_dlvFrom(self) == from && vcSameSlice(ghost_dlvRcpts(self), recipients) && vcSameSlice(ghost_dlvContent(self), content)
+
+// ---------------------------------------------------------------------------------------------
+// Delivery getters (the object handed to Store.AddMessage): each returns the metadata field.
+
+//@ func (*Delivery).Mailbox
+//@   ensures ret == d.Meta.Mailbox
+//@   serves C01
+//@ func (*Delivery).Subject
+//@   ensures ret == d.Meta.Subject
+//@   serves C01
+//@ func (*Delivery).Size
+//@   ensures ret == d.Meta.Size
+//@   serves C01
+//@ func (*Delivery).From
+//@   ensures ret == d.Meta.From
+//@   serves C01
+//@ func (*Delivery).ID
+//@   ensures ret == d.Meta.ID
+//@   serves C01
+
+// ---------------------------------------------------------------------------------------------
+// Counting over a sequence of flags (same definitions as in pop3; lemmas proved by induction).
+
+//@ pred spec_cnt(q vcSeq[bool], lo int, n int) int = vcIte(n <= 0, 0, spec_cnt(q, lo, n-1) + vcIte(vcSeqAt(q, lo+n-1), 1, 0))
+
+// @ lemma lemma_cnt_step
+// @   requires n >= 0
+// @   ensures spec_cnt(q, lo, n+1) == spec_cnt(q, lo, n) + vcIte(vcSeqAt(q, lo+n), 1, 0)
+// @   serves C01
+func lemma_cnt_step(q vcSeq[bool], lo int, n int) {}
+
+// @ lemma lemma_cnt_bounds
+// @   requires n >= 0
+// @   ensures 0 <= spec_cnt(q, lo, n) && spec_cnt(q, lo, n) <= n
+// @   decreases n
+// @   serves C01
+func lemma_cnt_bounds(q vcSeq[bool], lo int, n int) {
+	if n <= 0 {
+		return
+	}
+	lemma_cnt_bounds(q, lo, n-1)
+}
+
+// A set flag at position k < n: fewer set flags before k than before n.
+// @ lemma lemma_cnt_lt
+// @   requires 0 <= k && k < n && vcSeqAt(q, lo+k)
+// @   ensures spec_cnt(q, lo, k) < spec_cnt(q, lo, n)
+// @   decreases n
+// @   serves C01
+func lemma_cnt_lt(q vcSeq[bool], lo int, k int, n int) {
+	if n-1 <= k {
+		return
+	}
+	lemma_cnt_lt(q, lo, k, n-1)
+}
+
+// ---------------------------------------------------------------------------------------------
+// Deliver (C01 fan-out, C16 stored events, C17 redirect).
+
+// Ghosts of the two brokers Deliver talks to (recorded by the assumed contracts of Emit).
+func ghost_lastEmit(eb *extension.EventBroker[event.InboundMessage, event.InboundMessage]) *event.InboundMessage {
+	panic("ghost")
+}
+func ghost_nemitted(eb *extension.AsyncEventBroker[event.MessageMetadata]) int { panic("ghost") }
+func ghost_emitted(eb *extension.AsyncEventBroker[event.MessageMetadata]) vcSeq[*event.MessageMetadata] {
+	panic("ghost")
+}
+
+// The store/discard decision for each recipient, as a sequence of flags (evaluated in the state at
+// entry: Deliver does not change anything the decision depends on).
+//@ pred spec_storeFlags(rs []*policy.Recipient) vcSeq[bool] = vcMapSeq(func(k int) bool { return policy.Spec_shouldStore(rs[k]) })
+
+//@ pred spec_rcptsOK(rs []*policy.Recipient) bool = forall k int :: { rs[k] } 0 <= k && k < len(rs) ==> policy.Spec_recipientOK(rs[k])
+
+//@ func (*StoreManager).Deliver
+//@   requires s.Store != nil && s.ExtHost != nil && s.ExtHost.Events != nil && from != nil && spec_rcptsOK(recipients)
+//@   modifies ghost_nadded(s.Store), ghost_addBoxes(s.Store), ghost_addMsgs(s.Store), ghost_addIDs(s.Store),
+//@      ghost_lastEmit(&s.ExtHost.Events.BeforeMessageStored), ghost_nemitted(&s.ExtHost.Events.AfterMessageStored), ghost_emitted(&s.ExtHost.Events.AfterMessageStored)
+//@   ensures[policyFanout C01] ret == nil && ghost_lastEmit(&s.ExtHost.Events.BeforeMessageStored) == nil ==>
+//@      storage.Ghost_nadded(s.Store) == old(storage.Ghost_nadded(s.Store)) + spec_cnt(old(spec_storeFlags(recipients)), 0, len(recipients))
+//@   ensures[policyMailboxes C01] ret == nil && ghost_lastEmit(&s.ExtHost.Events.BeforeMessageStored) == nil ==>
+//@      forall k int :: { recipients[k] } 0 <= k && k < len(recipients) && vcSeqAt(old(spec_storeFlags(recipients)), k) ==>
+//@         storage.Ghost_addBoxAt(s.Store, old(storage.Ghost_nadded(s.Store)) + spec_cnt(old(spec_storeFlags(recipients)), 0, k)) == recipients[k].Mailbox
+//@   ensures[redirect C17] ret == nil && ghost_lastEmit(&s.ExtHost.Events.BeforeMessageStored) != nil ==>
+//@      storage.Ghost_nadded(s.Store) == old(storage.Ghost_nadded(s.Store)) + len(ghost_lastEmit(&s.ExtHost.Events.BeforeMessageStored).Mailboxes) &&
+//@      forall j int :: { ghost_lastEmit(&s.ExtHost.Events.BeforeMessageStored).Mailboxes[j] } 0 <= j && j < len(ghost_lastEmit(&s.ExtHost.Events.BeforeMessageStored).Mailboxes) ==>
+//@         storage.Ghost_addBoxAt(s.Store, old(storage.Ghost_nadded(s.Store)) + j) == ghost_lastEmit(&s.ExtHost.Events.BeforeMessageStored).Mailboxes[j]
+//@   ensures[size C01] forall j int :: { storage.Ghost_addMsgAt(s.Store, j) } old(storage.Ghost_nadded(s.Store)) <= j && j < storage.Ghost_nadded(s.Store) && ghost_lastEmit(&s.ExtHost.Events.BeforeMessageStored) == nil ==>
+//@         storage.Ghost_addMsgAt(s.Store, j).Size() == int64(len(source)) && storage.Ghost_addMsgAt(s.Store, j).Mailbox() == storage.Ghost_addBoxAt(s.Store, j)
+//@   ensures[storedEvents C16] ret == nil ==> ghost_nemitted(&s.ExtHost.Events.AfterMessageStored) - old(ghost_nemitted(&s.ExtHost.Events.AfterMessageStored)) == storage.Ghost_nadded(s.Store) - old(storage.Ghost_nadded(s.Store))
+//@   ensures[storedEventIdentity C16] forall j int :: { vcSeqAt(ghost_emitted(&s.ExtHost.Events.AfterMessageStored), j) } old(ghost_nemitted(&s.ExtHost.Events.AfterMessageStored)) <= j && j < ghost_nemitted(&s.ExtHost.Events.AfterMessageStored) ==>
+//@         vcSeqAt(ghost_emitted(&s.ExtHost.Events.AfterMessageStored), j) != nil &&
+//@         vcSeqAt(ghost_emitted(&s.ExtHost.Events.AfterMessageStored), j).ID == storage.Ghost_addIDAt(s.Store, j - old(ghost_nemitted(&s.ExtHost.Events.AfterMessageStored)) + old(storage.Ghost_nadded(s.Store))) &&
+//@         vcSeqAt(ghost_emitted(&s.ExtHost.Events.AfterMessageStored), j).Mailbox == storage.Ghost_addBoxAt(s.Store, j - old(ghost_nemitted(&s.ExtHost.Events.AfterMessageStored)) + old(storage.Ghost_nadded(s.Store)))
+//@   loop 1: invariant 0 <= ridx && ridx <= len(recipients) && vcFresh(toAddrs) && len(toAddrs) == len(recipients)
+//@   loop 1: decreases len(recipients) - ridx
+//@   loop 2: invariant 0 <= ridx && ridx <= len(recipients) && vcFresh(mailboxes) && len(mailboxes) == ridx && cap(mailboxes) >= len(recipients)
+//@   loop 2: decreases len(recipients) - ridx
+//@   loop 3: invariant 0 <= ridx && ridx <= len(recipients) && vcFresh(mailboxes) && cap(mailboxes) >= len(recipients) && len(mailboxes) <= ridx
+//@   loop 3: invariant len(mailboxes) == spec_cnt(old(spec_storeFlags(recipients)), 0, ridx)
+//@   loop 3: invariant forall k int :: { recipients[k] } 0 <= k && k < ridx && vcSeqAt(old(spec_storeFlags(recipients)), k) ==>
+//@      mailboxes[spec_cnt(old(spec_storeFlags(recipients)), 0, k)] == recipients[k].Mailbox
+//@   loop 3: decreases len(recipients) - ridx
+//@   loop 4: invariant 0 <= ridx && ridx <= len(inbound.Mailboxes) && inbound != nil
+//@   loop 4: invariant storage.Ghost_nadded(s.Store) == old(storage.Ghost_nadded(s.Store)) + ridx
+//@   loop 4: invariant ghost_nemitted(&s.ExtHost.Events.AfterMessageStored) == old(ghost_nemitted(&s.ExtHost.Events.AfterMessageStored)) + ridx
+//@   loop 4: invariant forall j int :: { inbound.Mailboxes[j] } 0 <= j && j < ridx ==> storage.Ghost_addBoxAt(s.Store, old(storage.Ghost_nadded(s.Store)) + j) == inbound.Mailboxes[j]
+//@   loop 4: invariant forall j int :: { storage.Ghost_addMsgAt(s.Store, j) } old(storage.Ghost_nadded(s.Store)) <= j && j < storage.Ghost_nadded(s.Store) ==>
+//@      storage.Ghost_addMsgAt(s.Store, j).Size() == inbound.Size && storage.Ghost_addMsgAt(s.Store, j).Mailbox() == storage.Ghost_addBoxAt(s.Store, j)
+//@   loop 4: invariant forall j int :: { vcSeqAt(ghost_emitted(&s.ExtHost.Events.AfterMessageStored), j) } old(ghost_nemitted(&s.ExtHost.Events.AfterMessageStored)) <= j && j < ghost_nemitted(&s.ExtHost.Events.AfterMessageStored) ==>
+//@         vcSeqAt(ghost_emitted(&s.ExtHost.Events.AfterMessageStored), j) != nil && vcFresh(vcSeqAt(ghost_emitted(&s.ExtHost.Events.AfterMessageStored), j)) &&
+//@         vcSeqAt(ghost_emitted(&s.ExtHost.Events.AfterMessageStored), j).ID == storage.Ghost_addIDAt(s.Store, j - old(ghost_nemitted(&s.ExtHost.Events.AfterMessageStored)) + old(storage.Ghost_nadded(s.Store))) &&
+//@         vcSeqAt(ghost_emitted(&s.ExtHost.Events.AfterMessageStored), j).Mailbox == storage.Ghost_addBoxAt(s.Store, j - old(ghost_nemitted(&s.ExtHost.Events.AfterMessageStored)) + old(storage.Ghost_nadded(s.Store)))
+//@   loop 4: decreases len(inbound.Mailboxes) - ridx
+//@   uses lemma_cnt_step lemma_cnt_bounds lemma_cnt_lt
+//@   serves C01 C16 C17
